@@ -718,6 +718,109 @@ def run_history(env, cfg, case):
     return nt, labels
 
 
+
+
+# ------------------------------------------------------------------------------ injected working states
+# A seed search reaches carry chains of ~3 bytes only (2^-8 per extra byte); installing V / C / counter directly in
+# the (public) context reaches chains of ANY length and position: the hashgen increment data + 1 across k trailing
+# 0xFF bytes inside one request, and V + H + C + counter rippling through the whole state.
+
+def strat_state(env, cfg):
+    I = info(env, cfg)
+    if I is None or I["HASH"] not in hashdrbg.PARAMS:
+        return st.just(None)
+    _, outlen, seedlen = hashdrbg.PARAMS[I["HASH"]]
+
+    @st.composite
+    def s(draw):
+        def val():
+            k = draw(st.integers(0, 5))
+            rnd = int.from_bytes(draw(st.binary(min_size=seedlen, max_size=seedlen)), "big")
+            if k == 0:
+                return rnd
+            t = draw(st.one_of(st.sampled_from([1, 2, 3, 4, 5, 8, 16, seedlen - 1, seedlen]), st.integers(1, seedlen)))
+            if k in (1, 2):
+                # trailing run of t 0xFF bytes, last byte lowered by a few so that a multi-block request crosses it
+                low = draw(st.sampled_from([0, 0, 1, 2, 3, 7, 15, 40]))
+                v = (rnd >> (8 * t) << (8 * t)) | ((1 << (8 * t)) - 1)
+                return max(0, v - low)
+            if k == 3:
+                # 0xFF run in the middle of the state
+                pos = draw(st.integers(0, seedlen - 1))
+                m = ((1 << (8 * t)) - 1) << (8 * pos)
+                return (rnd | m) & ((1 << (8 * seedlen)) - 1)
+            if k == 4:
+                return (1 << (8 * seedlen)) - 1 - draw(st.sampled_from([0, 1, 2, 255, 256]))
+            return draw(st.sampled_from([0, 1, 255, 256, (1 << 32) - 1, (1 << 32), (1 << 64) - 1]))
+        V, C = val(), val()
+        counter = draw(st.sampled_from([1, 2, 255, 256, 257, 65535, 65536, 65537, (1 << 24) - 1, (1 << 24)]))   # an int counter: 2^31 requests without reseed are outside any practical history
+        steps = []
+        for _ in range(draw(st.integers(1, 5))):
+            if draw(st.integers(0, 5)) == 0:
+                steps.append({"op": "reseed", "data": draw(st.binary(min_size=1, max_size=70))})
+            else:
+                steps.append({"op": "gen", "len": draw(st.sampled_from([0, 1, outlen - 1, outlen, outlen + 1, 2 * outlen, 3 * outlen + 5,
+                                                                         8 * outlen, 17 * outlen + 1, 41 * outlen, 64 * outlen]))})
+        return dict(V=V, C=C, counter=counter, scratch=draw(st.sampled_from([0, 3, 0xA5])), steps=steps,
+                    poison=draw(st.integers(0, 255)))
+    return s()
+
+
+def run_state(env, cfg, case):
+    I = info(env, cfg)
+    if case is None or I is None or I["HASH"] not in hashdrbg.PARAMS:
+        raise Unsupported()
+    if "drbg_set_state" not in env.runner(cfg).ops():
+        raise Unsupported()
+    _, outlen, seedlen = hashdrbg.PARAMS[I["HASH"]]
+    ref = hashdrbg.HashDRBG(I["HASH"])
+    ref.V, ref.C, ref.reseed_counter, ref.instantiated = case["V"], case["C"], case["counter"], True
+    p = Prog(poison=case["poison"])
+    sb = p.buf(ref.state_bytes())
+    p.call("drbg_set_state", sb, case["counter"], case["scratch"])
+    plan = []
+    for stp in case["steps"]:
+        if stp["op"] == "reseed":
+            p.call("drbg_reseed", p.buf(stp["data"]))
+            plan.append(("reseed", None))
+        else:
+            ob = p.buf(bytes(stp["len"]))
+            p.call("drbg_gen", ob, stp["len"])
+            p.dump(ob)
+            plan.append(("gen", ob))
+        p.call("drbg_state")
+    res = env.runner(cfg).run(p, timeout=60.0)
+    if res.failed_new:
+        raise Unsupported()
+    labels = ["state:counter=%s" % ("small" if case["counter"] < 256 else "2-byte" if case["counter"] < 65536 else "wide")]
+    ci = 1
+    for i, (stp, (kind, ob)) in enumerate(zip(case["steps"], plan)):
+        c = res.calls[ci]
+        if c.ub or c.errored:
+            raise Violation("step %d (%s) on an injected state reported an error / UB" % (i, kind), call=repr(c))
+        if kind == "reseed":
+            ref.reseed(stp["data"])
+            labels.append("state:reseed")
+        else:
+            v0 = ref.V
+            want = ref.generate(stp["len"])
+            if res.dumps[ob] != want:
+                raise Violation("step %d: generate(%d) on an injected state differs from Hash_DRBG" % (i, stp["len"]),
+                                step=i, first_diff=next((j for j in range(len(want)) if res.dumps[ob][j] != want[j]), None))
+            m = -(-stp["len"] // outlen)
+            if m > 1:
+                # how many bytes does data + 1 ripple through inside this request?
+                rip = max(((v0 + j) ^ (v0 + j + 1)).bit_length() for j in range(m - 1)) // 8
+                labels.append("state:hashgen-ripple>=%d" % (4 if rip >= 4 else rip))
+        st_call = res.calls[ci + 1]
+        got = st_call.blobs[0][1:1 + 2 * seedlen]
+        if got != ref.state_bytes() or st_call.ret_i(0) != ref.reseed_counter:
+            raise Violation("step %d (%s): working state V || C / counter differs from Hash_DRBG after the step" % (i, kind),
+                            step=i, counter_got=st_call.ret_i(0), counter_want=ref.reseed_counter)
+        ci += 2
+    return True, sorted(set(labels))
+
+
 _Q = ["base256", "w8"]
 _T = ["base256", "w8", "w16", "w32", "p255", "md-sh224", "md-sh384", "md-sh512"]
 
@@ -726,6 +829,7 @@ TARGETS = [
            needs=supported),
     Target("carry", strat_carry, run_history, {"quick": _Q, "thorough": _T}, quick=14000, thorough=25000, needs=supported),
     Target("long", strat_long, run_history, {"quick": _Q, "thorough": _T}, quick=1000, thorough=2500, needs=supported),
+    Target("state", strat_state, run_state, {"quick": _Q, "thorough": _T}, quick=12000, thorough=60000, needs=supported),
 ]
 
 
